@@ -393,6 +393,9 @@ func (c *Conn) StallIncoming(d time.Duration) {
 func (c *Conn) WriteErrAfter(k int) {
 	c.n.mu.Lock()
 	defer c.n.mu.Unlock()
+	if c.wr.werrAt >= 0 && c.wr.werrAt <= c.wr.written+int64(k) {
+		return // a socket that has reported a write error keeps failing: an earlier arming is never pushed back
+	}
 	c.wr.werrAt = c.wr.written + int64(k)
 }
 
@@ -400,6 +403,9 @@ func (c *Conn) WriteErrAfter(k int) {
 func (c *Conn) ReadErrAfter(k int) {
 	c.n.mu.Lock()
 	defer c.n.mu.Unlock()
+	if c.rd.rerrAt >= 0 && c.rd.rerrAt <= c.rd.read+int64(k) {
+		return // likewise for reads
+	}
 	c.rd.rerrAt = c.rd.read + int64(k)
 	c.rd.bump()
 }
